@@ -2,7 +2,14 @@
 
 A catalogue of read-only calls (enumerated from the public API: Gfa, every Line subclass, alignments, positions,
 oriented lines, segment ends, numeric/field arrays) is applied to states built from valid documents, either as a
-full sweep (every entry on every line) or as a random sequence.  Around every call a deep textual snapshot is
+full sweep (every entry on every line) or as a random sequence.  The states include GFA2 groups of every shape the
+resolution code distinguishes: O groups that are walks over the edges with each edge listed in its own direction
+(`e+`) or backwards (`e-`), as first or later item, with segments and edges elided, read from either end, nested
+through `p+`/`p-` and extended on both sides, perturbed into non-contiguous lists; U groups over segments, edges,
+paths, sets (also one defined later), gaps and undefined names (one fixed document of the sweep and the random
+GFA2 documents).  In a random sequence one call in four first picks a catalogue family (Gfa, record type) and then
+an entry, so that the few entries of the group lines are exercised as often as the many entries of the segments.
+Around every call a deep textual snapshot is
 taken: str(gfa), str of every line (virtual ones too), repr of every argument, str/repr of every value object
 (alignment, position, oriented line, array) returned so far.  Every call is made twice: the two answers must
 render equal.
@@ -23,11 +30,13 @@ from harness import lib
 from harness.props import _misc as M
 
 ID = "C10"
-RULE = ("sweep: 4 fixed documents (GFA1 and GFA2, canonical and non-canonical spellings of B/J/H tags and CIGARs, virtual "
-        "lines) x levels 0-3, every catalogue entry on every line it applies to, in catalogue order; random: random valid "
+RULE = ("sweep: 5 fixed documents (GFA1 and GFA2, canonical and non-canonical spellings of B/J/H tags and CIGARs, virtual "
+        "lines, O/U groups with edges listed forwards and backwards, elided items, nested +/- paths, nested sets) x levels 0-3, every catalogue entry on every line it applies to, in catalogue order; random: random valid "
         "GFA1/GFA2 graphs (2-4 segments from a 4-name pool, parallel and self edges, asymmetric CIGARs, containments, paths, "
-        "gaps, fragments, groups, custom records, tags of all datatypes) x 40 (quick) random catalogue calls including calls on "
-        "previously returned alignment/position objects.  Non-trivial: at least 10 calls were made on a state with an edge.")
+        "gaps, fragments, 0-3 O groups (random walks over the edges taken in either direction, elision, either reading end, "
+        "nesting with +/-, 18% perturbed) and 0-2 U groups (segments, edges, paths, sets, gap, undefined names), custom records, "
+        "tags of all datatypes) x 40 (quick) random catalogue calls, a quarter of them on previously returned alignment/position "
+        "objects and a quarter chosen family-first.  Non-trivial: at least 10 calls were made on a state with an edge.")
 
 TAGS_CANON = "ti:i:-5\ttf:f:1.5\ttz:Z:a b\tta:A:x\ttj:J:{\"k\": [1, {\"m\": 2}]}\ttb:B:c,-1,2\tth:H:0AF1"
 TAGS_RAW = "ti:i:-5\ttf:f:1.50\ttz:Z:a b\tta:A:x\ttj:J:{\"k\":[1,{\"m\":2}]}\ttb:B:i,-1,2\tth:H:0AF1\ttc:B:f,1.50,2"
